@@ -270,7 +270,7 @@ def run(ctx, obs, prop: str):
 # --------------------------------------------------------------------------------------------------------- DTYPE
 _LIKE = {'zeros_like', 'empty_like', 'ones_like', 'full_like'}
 _ALLOC = {'zeros', 'empty', 'ones', 'full'}
-_SELECT_ONLY = {'asarray', 'array', 'copy', 'squeeze', 'ravel', 'reshape', 'flatten', 'transpose', 'take', 'atleast_1d',
+_SELECT_ONLY = {'get_vectors', 'get_matrices', 'asarray', 'array', 'copy', 'squeeze', 'ravel', 'reshape', 'flatten', 'transpose', 'take', 'atleast_1d',
                 'atleast_2d', 'list', 'tuple'}
 
 
@@ -314,12 +314,18 @@ def dtype_inherit(ctx, obs, prefixes: Sequence[str], rule='DTYPE') -> int:
                 src = c.args[0]
             elif nm in _LIKE | _ALLOC and dt is not None and isinstance(dt, ast.Attribute) and dt.attr == 'dtype':
                 src = dt.value
+            elif nm == 'copy' and dt is None and isinstance(c.func, ast.Attribute) and not c.args \
+                    and not (isinstance(c.func.value, ast.Name) and c.func.value.id in ('np', 'numpy', 'copy')):
+                src = c.func.value            # x.copy(): same dtype as x
+            elif nm == 'copy' and dt is None and c.args and isinstance(c.func, ast.Attribute) and isinstance(c.func.value, ast.Name) \
+                    and c.func.value.id in ('np', 'numpy'):
+                src = c.args[0]
             if src is None:
                 continue
             r = _root(src)
             if r is None:
                 continue
-            allocs[s.targets[0].id] = (s, src, r)
+            allocs[s.targets[0].id] = (s, src, r, nm == 'copy')
         if not allocs:
             continue
         local = {}
@@ -343,7 +349,22 @@ def dtype_inherit(ctx, obs, prefixes: Sequence[str], rule='DTYPE') -> int:
                      else (rr.args[0] if rr.args else None))
                 return inner is not None and selection_of(inner, root, depth)
             return False
-        for name, (st, src, root) in sorted(allocs.items()):
+        rdep = ctx.dep.result(q)
+
+        def defs_of(name_node):
+            if rdep is None:
+                return [None]
+            ids = rdep.load_defs.get(id(name_node))
+            if ids is None:
+                return [None]
+            out = []
+            for i in ids:
+                d = rdep.defs[i]
+                if d.kind == 'param':
+                    return None
+                out.append(d.rhs if d.kind == 'assign' and isinstance(d.node, ast.Assign) and isinstance(d.node.targets[0], ast.Name) else None)
+            return out
+        for name, (st, src, root, is_copy) in sorted(allocs.items()):
             stores = [s for s in ast.walk(f.node) if isinstance(s, (ast.Assign, ast.AugAssign))
                       and isinstance((s.targets[0] if isinstance(s, ast.Assign) else s.target), ast.Subscript)
                       and _root((s.targets[0] if isinstance(s, ast.Assign) else s.target)) == name]
@@ -352,8 +373,18 @@ def dtype_inherit(ctx, obs, prefixes: Sequence[str], rule='DTYPE') -> int:
             n += 1
             # the source may itself be a local alias of the input (desc = np.asarray(dataset.obs_descriptors[d]))
             roots = {root}
+            if is_copy and any(isinstance(s.targets[0].slice if isinstance(s, ast.Assign) else s.target.slice, ast.Constant)
+                               and isinstance((s.targets[0].slice if isinstance(s, ast.Assign) else s.target.slice).value, str) for s in stores):
+                continue          # a dict copy filled by key
             bad = [s for s in stores if not any(selection_of(s.value, r0) for r0 in roots)
                    and not (isinstance(s.value, ast.Constant) and isinstance(s, ast.Assign) and s.value.value in (0, 1, False, True))]
+            if is_copy:
+                # a copy of the input legitimately receives edited values of the same kind; only values that are float whatever the
+                # inputs (quotients, means, ranks ...) are certainly cast when the input is integer-typed
+                bad = [s for s in bad if isinstance(s, ast.Assign) and _dkind(s.value, defs_of) == 'float']
+                if not bad:
+                    n -= 1
+                    continue
             con = f'buffer `{name}` typed like `{norm(src)[:40]}` only receives elements of that array'
             if not bad:
                 obs.ok(rule, q, con, f'`{norm(st)[:70]}`', where(prog, f, st))
